@@ -414,6 +414,23 @@ fn names_from_image(img: &[u8], max: usize) -> Vec<Query> {
     out
 }
 
+/// "For every byte buffer, parsing returns a value or an error without panicking" includes buffers
+/// at any address: parse the same bytes at every misalignment 1..7 (whatever it answers).
+pub fn parse_misaligned(img_bytes: &[u8]) -> Option<(String, String)> {
+    let mut padded = vec![0u8; img_bytes.len() + 8];
+    let carrier = AlignedBuf::new(&padded);
+    drop(std::mem::take(&mut padded));
+    let mut carrier = carrier;
+    for off in 1..8usize {
+        carrier.as_mut_slice()[off..off + img_bytes.len()].copy_from_slice(img_bytes);
+        let slice = &carrier.as_slice()[off..off + img_bytes.len()];
+        if let Err(p) = guarded(|| cur::ProguardCache::parse(slice).map(|c| c.remap_class("a").is_some())) {
+            return Some((format!("parse-panic-misaligned {}", panic_class(&p)), format!("ProguardCache::parse panicked on a buffer at address % 8 == {}: {}", off, p)));
+        }
+    }
+    None
+}
+
 pub fn run_image(img_bytes: &[u8], queries: &[Query], derive_names: bool) -> ImageResult {
     let buf = AlignedBuf::new(img_bytes);
     let slice = buf.as_slice();
@@ -612,7 +629,13 @@ fn run_plan(run: u64, plan: &FilePlan, watch: &Watch, st: &mut Stats, vs: &mut V
         watch.slots[slot][2].store(idx as u64, Ordering::Relaxed);
         watch.slots[slot][0].store(watch.now_ms(), Ordering::SeqCst);
         crash_mark(run, idx as u64);
-        let r = run_image(&img, &plan.queries, true);
+        let mut r = run_image(&img, &plan.queries, true);
+        if r.violation.is_none() && (idx < 4 || idx % 97 == 0) {
+            st.inc("images_also_parsed_at_misaligned_addresses");
+            if let Some((c, m)) = parse_misaligned(&img) {
+                r.violation = Some((c, m, None));
+            }
+        }
         watch.slots[slot][0].store(0, Ordering::SeqCst);
         st.inc("images");
         for o in ops {
@@ -707,6 +730,18 @@ pub fn replay(doc: &Value) -> i32 {
     };
     println!("replay C12: file={}B ops={:?} queries={}", file.len(), ops, queries.len());
     let img = apply(&file, &ops);
+    if doc["class"].as_str().map_or(false, |c| c.starts_with("parse-panic-misaligned")) {
+        return match parse_misaligned(&img) {
+            Some((class, msg)) => {
+                println!("reproduced: class={} :: {}", class, msg);
+                1
+            }
+            None => {
+                println!("not reproduced: the property holds on this case");
+                0
+            }
+        };
+    }
     // the replay of a hang hangs again: give it the same limit
     let (tx, rx) = std::sync::mpsc::channel();
     let img2 = img.clone();
@@ -754,7 +789,7 @@ pub fn dump_case(env: &Env, run: u64, case: usize, signal: u64) -> i32 {
 
 pub fn main(env: &Env) -> i32 {
     let mut rep = Report::new("C12", if env.thorough { "exploration" } else { "fault_enumeration" }, env);
-    rep.expected_probes = vec!["fault.field_set", "fault.bit_flip", "fault.byte_set", "fault.record_swap", "fault.record_copy", "fault.zero_range", "fault.garbage_fill", "fault.append_garbage", "fault.truncate", "images_accepted_by_parse", "images_rejected_by_parse"];
+    rep.expected_probes = vec!["fault.field_set", "fault.bit_flip", "fault.byte_set", "fault.record_swap", "fault.record_copy", "fault.zero_range", "fault.garbage_fill", "fault.append_garbage", "fault.truncate", "images_accepted_by_parse", "images_rejected_by_parse", "images_also_parsed_at_misaligned_addresses"];
     rep.stubs = vec!["SimDisk corruption operators on the stored cache image: field set, bit flip, record swap/copy (misdirected write), string length prefix, UTF-8 byte, zeroed sector / tail (lost write), garbage fill, appended garbage".into()];
     rep.assumptions = vec![
         "built with overflow-checks and debug-assertions on, so arithmetic overflow is a panic and not a silent wrap".into(),
